@@ -76,6 +76,9 @@ def run(ctx) -> None:
     ctx.rule("C03.R3-apply-replicate", "a reference is treated as replicated only if its producer has a positive propagated count "
                                        "and is not aggregating; every component is emitted by one of the three branches")
     ctx.rule("C03.R5-relative-only-same-stage", "the relative spelling of a replicated producer is rewritten only for consumers in the producer's stage")
+    ctx.rule("C03.R12-expansion-sees-process-constant-tables", "the expansion decides which references name components with FlowIR's class-level tables "
+             "(SpecialFolders ..): no function mutates them in place - otherwise the folders and application dependencies of one workflow stay "
+             "'reserved' for every workflow expanded later in the process (the C09 obligation re-used)")
     ctx.rule("C03.R4-propagation", "counts propagate in topological order and an aggregating predecessor contributes None")
 
     m = ctx.repo.module(FLOWIR)
@@ -656,3 +659,10 @@ def run(ctx) -> None:
     ctx.ob("C03.R4-propagation", pr[0] if pr else prop, ok, "an aggregating predecessor contributes None (replication stops at aggregation)" if ok else
            "an aggregating predecessor still propagates its replica count downstream",
            construct="predecessor_replicate = [count if not aggregating else None]")
+
+    # ---------------- R12: the reserved tables are process constants (C09.R6 re-used) ------------------------
+    from checks.c09 import check_reserved_constants
+    check_reserved_constants(ctx, ctx.repo.module(FLOWIR), "C03.R12-expansion-sees-process-constant-tables",
+                             "a later workflow whose replicated component is named like an application dependency of an earlier one ('simulate' after "
+                             "'Simulate.application') has its relative reference 'simulate:ref' classified as a folder: no edge, no rewrite - the consumer "
+                             "is not replicated and keeps a reference to a component that no longer exists")
